@@ -237,8 +237,8 @@ func checkOperations(doc specDoc, version string, report func(class, msg string)
 				}
 			}
 			sort.Strings(props)
-			if req := strs(dig(sc, "required")); fmt.Sprint(props) != "[label_text level weight]" || fmt.Sprint(req) != "[label_text]" {
-				report("C06-form-fields", fmt.Sprintf("%s: %s form body has properties %v required %v, want [label_text level weight] required [label_text]", version, key, props, req))
+			if req := strs(dig(sc, "required")); fmt.Sprint(props) != "[label_text lvl weight]" || fmt.Sprint(req) != "[label_text]" {
+				report("C06-form-fields", fmt.Sprintf("%s: %s form body has properties %v required %v, want [label_text lvl weight] required [label_text]", version, key, props, req))
 			}
 		}
 		if body != w.body {
@@ -334,7 +334,7 @@ func checkComponents(doc specDoc, version string, report func(class, msg string)
 	if got, want := props("AlphaBody"), []string{"name", "rank"}; fmt.Sprint(got) != fmt.Sprint(want) {
 		report("C07-properties", fmt.Sprintf("%s: AlphaBody properties %v, want %v", version, got, want))
 	}
-	if got, want := props("BetaBody"), []string{"count", "note", "rank"}; fmt.Sprint(got) != fmt.Sprint(want) {
+	if got, want := props("BetaBody"), []string{"count", "note", "rank", "ratio", "tags"}; fmt.Sprint(got) != fmt.Sprint(want) {
 		report("C07-properties", fmt.Sprintf("%s: BetaBody properties %v, want %v", version, got, want))
 	}
 	if got, want := props("Widget"), []string{"H", "W", "colour", "flag", "priority", "title"}; fmt.Sprint(got) != fmt.Sprint(want) {
@@ -447,6 +447,7 @@ func TestVerifSpecAgainstAnnotations(t *testing.T) {
 			if m, ok := dig(sc, "properties").(map[string]any); ok {
 				for k, pv := range m {
 					props = append(props, fmt.Sprintf("%s:%v:%v", k, dig(pv, "type"), dig(pv, "$ref")))
+					out["schema.bounds "+n+"."+k] = boundsOf(pv)
 				}
 			}
 			sort.Strings(props)
@@ -670,6 +671,47 @@ func TestVerifC10AcceptReject(t *testing.T) {
 	if failed {
 		t.Fail()
 	}
+}
+
+// boundsOf: the numeric / length / item bounds, pattern and value set of one property schema, with the two dialects'
+// spellings of exclusive bounds translated into one (3.0: minimum + exclusiveMinimum:true; 3.1: exclusiveMinimum: n)
+func boundsOf(pv any) string {
+	m, _ := pv.(map[string]any)
+	var parts []string
+	lower, upper := "", ""
+	if v, ok := m["minimum"]; ok {
+		lower = fmt.Sprintf(">=%v", v)
+		if ex, _ := m["exclusiveMinimum"].(bool); ex {
+			lower = fmt.Sprintf(">%v", v)
+		}
+	}
+	if v, ok := m["exclusiveMinimum"].(float64); ok {
+		lower = fmt.Sprintf(">%v", v)
+	}
+	if v, ok := m["maximum"]; ok {
+		upper = fmt.Sprintf("<=%v", v)
+		if ex, _ := m["exclusiveMaximum"].(bool); ex {
+			upper = fmt.Sprintf("<%v", v)
+		}
+	}
+	if v, ok := m["exclusiveMaximum"].(float64); ok {
+		upper = fmt.Sprintf("<%v", v)
+	}
+	parts = append(parts, "lower="+lower, "upper="+upper)
+	for _, k := range []string{"minLength", "maxLength", "minItems", "maxItems", "pattern", "format", "uniqueItems"} {
+		if v, ok := m[k]; ok {
+			parts = append(parts, fmt.Sprintf("%s=%v", k, v))
+		}
+	}
+	if l, ok := m["enum"].([]any); ok {
+		var vs []string
+		for _, e := range l {
+			vs = append(vs, fmt.Sprint(e))
+		}
+		sort.Strings(vs)
+		parts = append(parts, "enum="+strings.Join(vs, "|"))
+	}
+	return strings.Join(parts, " ")
 }
 
 func firstLine(err error) string {
